@@ -11,6 +11,8 @@ import (
 	"io"
 	"net"
 	"os"
+	"path/filepath"
+	"strings"
 	"syscall"
 	"time"
 
@@ -54,6 +56,7 @@ func (a simAddr) String() string  { return a.s }
 type NetListener struct {
 	n       *Net
 	addr    string
+	naddr   net.Addr // typed address for listeners made through the snet backend
 	mu      *sync.Mutex
 	cv      *sync.Cond
 	backlog []*NetConn
@@ -116,7 +119,12 @@ func (l *NetListener) Close() error {
 	return nil
 }
 
-func (l *NetListener) Addr() net.Addr { return simAddr{"sim", l.addr} }
+func (l *NetListener) Addr() net.Addr {
+	if l.naddr != nil {
+		return l.naddr
+	}
+	return simAddr{"sim", l.addr}
+}
 
 // Listening reports whether addr is bound.
 func (n *Net) Listening(addr string) bool {
@@ -129,7 +137,9 @@ func (n *Net) Listening(addr string) bool {
 var errRefused = &net.OpError{Op: "dial", Net: "sim", Err: os.NewSyscallError("connect", syscall.ECONNREFUSED)}
 
 // Dial connects to addr; the returned conn is the client end.
-func (n *Net) Dial(addr string) (*NetConn, error) {
+func (n *Net) Dial(addr string) (*NetConn, error) { return n.dial(addr, nil) }
+
+func (n *Net) dial(addr string, typed func(port int) (net.Addr, net.Addr)) (*NetConn, error) {
 	n.mu.Lock()
 	outcome := "ok"
 	if plan := n.DialPlan[addr]; len(plan) > 0 {
@@ -153,8 +163,10 @@ func (n *Net) Dial(addr string) (*NetConn, error) {
 		}
 		return nil, errRefused
 	}
-	ca := simAddr{"sim", fmt.Sprintf("client:%d", port)}
-	sa := simAddr{"sim", addr}
+	var ca, sa net.Addr = simAddr{"sim", fmt.Sprintf("client:%d", port)}, simAddr{"sim", addr}
+	if typed != nil {
+		ca, sa = typed(port)
+	}
 	c, s := n.pair(ca, sa)
 	if icpt != nil {
 		icpt(s)
@@ -170,6 +182,105 @@ func (n *Net) Dial(addr string) (*NetConn, error) {
 	l.cv.Broadcast()
 	l.mu.Unlock()
 	return c, nil
+}
+
+// ------------------------------------------------------------------ snet backend
+
+// netBackend is what verifsim/snet calls in a simulated run: transport/tcp,
+// transport/ipc and transport/tlstcp (import "net" rewritten to snet) open
+// their connections and listeners here.
+type netBackend struct{ n *Net }
+
+// NetKey is the simulated network's name for a mangos address of a real
+// stream transport (tcp://, tls+tcp://, ipc://) or of sim:// / simipc://.
+func NetKey(url string) string {
+	i := strings.Index(url, "://")
+	if i < 0 {
+		return url
+	}
+	scheme, rest := url[:i], url[i+3:]
+	switch scheme {
+	case "tcp", "tls+tcp":
+		if k, _, err := tcpKey(rest); err == nil {
+			return k
+		}
+	}
+	return rest
+}
+
+func tcpKey(address string) (string, *net.TCPAddr, error) {
+	ta, err := net.ResolveTCPAddr("tcp", address)
+	if err != nil {
+		return "", nil, err
+	}
+	if ta.IP == nil || ta.IP.IsUnspecified() {
+		ta.IP = net.IPv4(127, 0, 0, 1)
+	}
+	return ta.String(), ta, nil
+}
+
+func (b netBackend) Listen(network, address string) (net.Listener, error) {
+	n := b.n
+	switch network {
+	case "tcp", "tcp4", "tcp6":
+		key, ta, err := tcpKey(address)
+		if err != nil {
+			return nil, &net.OpError{Op: "listen", Net: network, Err: err}
+		}
+		if ta.Port == 0 {
+			n.mu.Lock()
+			n.nextPort++
+			ta.Port = n.nextPort
+			n.mu.Unlock()
+			key = ta.String()
+		}
+		l, err := n.Listen(key)
+		if err != nil {
+			return nil, err
+		}
+		l.naddr = ta
+		return l, nil
+	case "unix":
+		// the socket file is never created, but its directory must exist as
+		// it must for a real bind
+		if _, err := os.Stat(filepath.Dir(address)); err != nil {
+			return nil, &net.OpError{Op: "listen", Net: network, Err: os.NewSyscallError("bind", syscall.ENOENT)}
+		}
+		l, err := n.Listen(address)
+		if err != nil {
+			return nil, err
+		}
+		l.naddr = &net.UnixAddr{Name: address, Net: "unix"}
+		return l, nil
+	}
+	return nil, &net.OpError{Op: "listen", Net: network, Err: net.UnknownNetworkError(network)}
+}
+
+func (b netBackend) Dial(network, address string) (net.Conn, error) {
+	n := b.n
+	switch network {
+	case "tcp", "tcp4", "tcp6":
+		key, ta, err := tcpKey(address)
+		if err != nil {
+			return nil, &net.OpError{Op: "dial", Net: network, Err: err}
+		}
+		c, err := n.dial(key, func(port int) (net.Addr, net.Addr) {
+			return &net.TCPAddr{IP: net.IPv4(127, 0, 0, 1), Port: port}, ta
+		})
+		if err != nil {
+			return nil, err
+		}
+		return c, nil
+	case "unix":
+		c, err := n.dial(address, func(port int) (net.Addr, net.Addr) {
+			return &net.UnixAddr{Name: "", Net: "unix"}, &net.UnixAddr{Name: address, Net: "unix"}
+		})
+		if err != nil {
+			return nil, err
+		}
+		return c, nil
+	}
+	return nil, &net.OpError{Op: "dial", Net: network, Err: net.UnknownNetworkError(network)}
 }
 
 // ------------------------------------------------------------------ conns
